@@ -4,8 +4,8 @@ from . import common as C
 
 MANIFEST = dict(
    technique="Lean 4 proof of the FinalizeIssue priority chain for arbitrary error maps + translator: the wiring of every issue site (which message sources reach FinalizeIssue) and the locale x issue-kind table are regenerated from the real code on every run by sentinel error maps (Gen/MsgWiring.lean, Gen/LocaleTable.lean), decided in Lean over the regenerated tables, and every one of the 2^k source subsets of every site is compared with the model's prediction",
-   text="finalize_priority proves, for arbitrary error-map functions, that FinalizeIssue's message is the first non-empty of check message, schema message, per-parse map, global custom map, locale, built-in text. c18_wired_partial (decide over the regenerated wiring of 47 issue leaves x 8 nesting wrappers) and c18_all_sites_partial lift it to: at every site and for every configuration outside the listed gaps the message comes from the first configured source; c18_locales: every bundled locale returns a non-empty message for every issue kind of the regenerated catalogue, which covers the required kinds (c18_locales_cover). The gaps (site x missing source) are open known findings with witness theorems.",
-   note="Trusted: Lean kernel; axioms propext/Classical.choice/Quot.sound only; the Go harness (site catalogue, sentinel maps), the generator of the Gen tables and the comparer. Sites are a finite catalogue (47 leaves x 8 wrappers, 2^k configurations each), not all schemas; a source is identified by a constant sentinel message. Locale non-emptiness is checked on one representative raw issue per kind.",
+   text="finalize_priority proves, for arbitrary error-map functions, that FinalizeIssue's message is the first non-empty of check message, schema message, per-parse map, global custom map, locale, built-in text. c18_wired_partial (decide over the regenerated wiring of 54 issue leaves x 8 nesting wrappers) and c18_all_sites_partial lift it to: at every site and for every configuration outside the listed gaps the message comes from the first configured source; c18_locales: every bundled locale returns a non-empty message for every issue kind of the regenerated catalogue, which covers the required kinds (c18_locales_cover). The gaps (site x missing source) are open known findings with witness theorems.",
+   note="Trusted: Lean kernel; axioms propext/Classical.choice/Quot.sound only; the Go harness (site catalogue, sentinel maps), the generator of the Gen tables and the comparer. Sites are a finite catalogue (54 leaves x 8 wrappers, 2^k configurations each), not all schemas; a source is identified by a constant sentinel message. Locale non-emptiness is checked on one representative raw issue per kind.",
    design="DESIGN.md §5 C18; notes/C18.md")
 
 MODULES = ["Gozod.Proofs.C18"]
@@ -150,7 +150,7 @@ def run(res):
         C.tie_broken(res, "proof Gozod.Proofs.C18 over the regenerated tables", detail)
     res.coverage["sites"] = len(SITES)
     res.coverage["gaps"] = {s: d["missing"] for s, d in SITES.items() if d["missing"] and d["wrapper"] == "top"}
-    res.coverage["rule"] = ("47 issue leaves (invalid_type per raising schema, too_small/too_big per origin, invalid_format per format, not_multiple_of, "
+    res.coverage["rule"] = ("54 issue leaves (invalid_type per raising schema, too_small/too_big per origin, invalid_format per format, not_multiple_of, "
         "unrecognized_keys, invalid_union, invalid_value, key/element, custom) x 8 wrappers (top, object field, slice element, array item, tuple item, "
         "record value, map value, object in slice) x every subset of the applicable sources (up to 32) with constant sentinel maps; "
         "every bundled locale x every issue kind of the catalogue. distinct = distinct cells.")
